@@ -113,3 +113,99 @@ contract(DB + "partition_identifiers_to_blocks",
          witness=[dict(identifier_list=[b"ab", b"cd", b"ef"], entry_count_in_one_block=2, identifier_size=2,
                        block_size_bytes=5)],
          props=["C17", "C01", "C05"])
+
+# ---- more spec functions ----------------------------------------------------------------------------
+ILS = sort(TList(TInt))
+BLLS = sort(TList(BL))
+il = z3.Const("il", ILS)
+psum_upto = specfn("psum_upto", [TList(TInt), TInt], TInt, py=lambda xs, k: sum(xs[:max(k, 0)]),
+                   doc="sum of the first k elements")
+psum_upto.define = lambda xs, k: z3.If(k <= 0, 0, psum_upto(xs, k - 1) + xs[k - 1])
+all_nonneg_upto = specfn("all_nonneg_upto", [TList(TInt), TInt], TBool, py=lambda xs, k: all(x >= 0 for x in xs[:max(k, 0)]))
+all_nonneg_upto.define = lambda xs, k: z3.If(k <= 0, True, z3.And(xs[k - 1] >= 0, all_nonneg_upto(xs, k - 1)))
+all_nonneg = specfn("all_nonneg", [TList(TInt)], TBool, py=lambda xs: all(x >= 0 for x in xs))
+all_nonneg.define = lambda xs: all_nonneg_upto(xs, Len(xs))
+pieces = specfn("pieces", [TBytes, TList(TInt), TInt], BL,
+                py=lambda x, ls, k: [x[sum(ls[:j]):sum(ls[:j + 1])] for j in range(max(k, 0))],
+                doc="the first k pieces of x cut at the prefix sums of ls")
+pieces.define = lambda x, ls, k: z3.If(
+    k <= 0, z3.Empty(BLS),
+    z3.Concat(pieces(x, ls, k - 1), z3.Unit(Ext(x, psum_upto(ls, k - 1), ls[k - 1]))))
+chunks_from = specfn("chunks_from", [BL, TInt, TInt], TList(BL),
+                     py=lambda xs, n, i: [xs[j:j + n] for j in range(max(i, 0), len(xs), n)] if n > 0 else [])
+chunks_from.define = lambda xs, n, i: z3.If(
+    z3.Or(n <= 0, i < 0, i >= Len(xs)), z3.Empty(BLLS),
+    z3.Concat(z3.Unit(Ext(xs, i, n)), chunks_from(xs, n, i + n)))
+
+# ---- bytes_utils ------------------------------------------------------------------------------------
+xa, xb = z3.Consts("xa xb", BYTES)
+k = z3.Int("k")
+
+
+def _xor_upto_py(a, b, k):
+    k = max(0, min(k, len(a), len(b)))
+    return bytes(x ^ y for x, y in zip(a[:k], b[:k])) + a[k:]
+
+
+xor_upto = specfn("xor_upto", [TBytes, TBytes, TInt], TBytes, py=_xor_upto_py,
+                  doc="a with its first k bytes xored with the first k bytes of b (0 <= k <= min(len a, len b))")
+xor_upto.define = lambda a, b, k: z3.If(
+    k <= 0, a,
+    z3.Concat(Ext(xor_upto(a, b, k - 1), 0, k - 1),
+              z3.Unit(xor_upto(a, b, k - 1)[k - 1] ^ b[k - 1]),
+              Ext(xor_upto(a, b, k - 1), k, Len(a) - k)))
+
+lemma("xor_upto_len", [xa, xb, k], Imp(k <= Len(xa), Len(xor_upto(xa, xb, k)) == Len(xa)),
+      patterns=[xor_upto(xa, xb, k)], induct=("int", k), inst=[[xa, xb, k - 1]])
+
+contract(BU + "bytes_xor",
+         params=dict(a=TBytes, b=TBytes), returns=TBytes,
+         raises={"IndexError": dict(when="len(b) > len(a)", iff=True)},
+         ensures=["result == xor_upto(a, b, len(b))", "len(result) == len(a)"],
+         lemmas=["xor_upto_len"],
+         loops={0: dict(invariant=["result == xor_upto(a, b, it)", "len(result) == len(a)", "it <= len(a)"])},
+         witness=[dict(a=b"abc", b=b"xy")], props=["C17", "C15"])
+
+contract(BU + "int_to_bytes",
+         params=dict(x=TInt, output_len=TInt), returns=TBytes,
+         requires=["output_len >= -1"],
+         raises={"OverflowError": dict(when="x < 0 or (output_len != -1 and x >= pow2(8 * output_len))", iff=True)},
+         ensures=["result == i2b(x, output_len if output_len != -1 else (bitlen(x) + 7) // 8)",
+                  "len(result) == (output_len if output_len != -1 else (bitlen(x) + 7) // 8)",
+                  "b2i(result) == x"],
+         lemmas=["bitlen_bound", "pow2_mono", "b2i_i2b"],
+         witness=[dict(x=258, output_len=-1), dict(x=0, output_len=0)], props=["C17"])
+
+contract(BU + "int_from_bytes",
+         params=dict(xbytes=TBytes), returns=TInt,
+         ensures=["result == b2i(xbytes)", "result >= 0"],
+         witness=[dict(xbytes=b"\x01\x02")], props=["C17"])
+
+contract(BU + "add_leading_zeros",
+         params=dict(xbytes=TBytes, output_len=TInt), returns=TBytes,
+         ensures=["result == zeros(output_len - len(xbytes)) + xbytes",
+                  "len(result) == (output_len if output_len > len(xbytes) else len(xbytes))"],
+         witness=[dict(xbytes=b"ab", output_len=4)], props=["C17", "C02"])
+
+IL = TList(TInt)
+contract(BU + "split_bytes_given_slice_len",
+         params=dict(xbytes=TBytes, slice_len_list=IL), returns=BL,
+         requires=["all_nonneg(slice_len_list)"],
+         raises={"ValueError": dict(when="len(xbytes) != isum(slice_len_list)", iff=True)},
+         ensures=["len(result) == len(slice_len_list)",
+                  "result == pieces(xbytes, slice_len_list, len(slice_len_list))",
+                  "join(result) == xbytes"],
+         locals={"result": BL},
+         loops={1: dict(invariant=[
+             "0 <= it", "it <= len(slice_len_list)", "len(result) == it",
+             "c == psum_upto(slice_len_list, it)",
+             "result == pieces(xbytes, slice_len_list, it)",
+         ])},
+         witness=[dict(xbytes=b"abcde", slice_len_list=[2, 3])], props=["C17"])
+
+contract("toolkit/list_utils.py:chunks",
+         params=dict(lst=BL, n=TInt), returns=TList(BL),
+         requires=["n > 0"],
+         ensures=["result == chunks_from(lst, n, 0)"],
+         loops={0: dict(invariant=["result + chunks_from(lst, n, i) == chunks_from(lst, n, 0)"])},
+         witness=[dict(lst=[b"a", b"b", b"c"], n=2)], props=["C17", "C01"])
